@@ -81,19 +81,27 @@ def load_known(pid):
             if m and m.group(1) == pid: out[m.group(2)] = m.group(3)
     return out
 
+def load_known_all():
+    out = {}
+    if os.path.exists(KNOWN):
+        for ln in open(KNOWN):
+            m = re.match(r"known: property=(\S+) key=(\S+) (.*)", ln.strip())
+            if m: out.setdefault(m.group(1), {})[m.group(2)] = m.group(3)
+    return out
+
 # ------------------------------------------------------------------ trace validation
 
 def write_trace(path, events):
     with open(path, "w") as f:
         for e in events: f.write(json.dumps(e, separators=(",", ":")) + "\n")
 
-def validate(module, cfg, events, timeout=600, xmx="4g"):
+def validate(module, cfg, events, timeout=600, xmx="4g", extra_files=None):
     """returns (accepted: bool, consumed: int, TlcResult). accepted <=> invariant NotAccepted violated."""
     d = os.path.join(TMP, "vtrace_%d_%d" % (os.getpid(), random.randrange(1 << 30)))
     os.makedirs(d, exist_ok=True)
     p = os.path.join(d, "t.ndjson")
     write_trace(p, events)
-    r = tlc.run(module, cfg, workers=1, env={"TRACE": p}, timeout=timeout, xmx=xmx)
+    r = tlc.run(module, cfg, workers=1, env={"TRACE": p}, timeout=timeout, xmx=xmx, extra_files=extra_files)
     shutil.rmtree(d, ignore_errors=True)
     post_fail = "ostcondition" in r.out and ("violated" in r.out or "false" in r.out.lower().split("ostcondition")[-1][:200])
     acc = (r.rc == 0 and not r.violation and not r.error and r.depth - 1 == len(events) and not post_fail)
@@ -104,7 +112,7 @@ def validate(module, cfg, events, timeout=600, xmx="4g"):
         consumed = max(0, len(re.findall(r"^State \d+:", r.trace_text, re.M)) - 1)
     return acc, consumed, r
 
-def validate_scripts(ctx, module, cfg, items, timeout=600, batch=400, first_event=None):
+def validate_scripts(ctx, module, cfg, items, timeout=600, batch=400, first_event=None, extra_files=None):
     """items: list of (Script, events). Validates in batches (events concatenated; every script starts with a reset event).
     Returns list of (Script, events, consumed_in_script, TlcResult) for rejected scripts."""
     rejected = []
@@ -115,7 +123,7 @@ def validate_scripts(ctx, module, cfg, items, timeout=600, batch=400, first_even
             evs = []; bounds = []
             for s, e in chunk:
                 bounds.append((len(evs), len(evs) + len(e))); evs += e
-            acc, consumed, r = validate(module, cfg, evs, timeout=timeout)
+            acc, consumed, r = validate(module, cfg, evs, timeout=timeout, extra_files=extra_files)
             tlc.cleanup(r)
             if r.error and not r.violation:
                 ctx.infra_fail("TLC error validating %s: %s" % (module, r.error[:1500])); return rejected
